@@ -383,6 +383,44 @@ def rule_toc_gather(ctx):
                 k = "position"
         if k:
             reads.append((k, callee(t).get("args", ["?"])[0], t))
+    # the same gathers written as iterator chains: permutation.iter()[.enumerate()].map(|..| vec[..]) - inside the closure the index
+    # is the closure's argument (an element; for an enumerated iterator component 0 is the position, component 1 the element)
+    for b, t in f.calls():
+        c = callee(t)
+        if not c or c["fn"].split("::")[-1] not in ("map", "for_each", "filter_map") or len(t[2]) != 2 or op_local(t[2][0]) not in P:
+            continue
+        d = defs.single(op_local(t[2][1])) if op_local(t[2][1]) is not None else None
+        if not d or d[2] != "assign" or d[3][2][0] != "agg" or d[3][2][1][0] != "closure":
+            continue
+        g = cr.fns.get(d[3][2][1][1])
+        if g is None:
+            continue
+        ctx.seen(g)
+        enum = "Enumerate<" in " ".join(c.get("args", []))
+        gd = Defs(g)
+        for gb, gt in g.calls():
+            gc = callee(gt)
+            if not gc or not gc["fn"].endswith("ops::index::Index::index") or len(gt[2]) != 2:
+                continue
+            l, comp, n = op_local(gt[2][1]), None, 0
+            while l is not None and l != 2 and n < 8:
+                n += 1
+                dd = gd.single(l)
+                if not dd or dd[2] != "assign":
+                    l = None
+                    break
+                rv = dd[3][2]
+                pl = op_place(rv[1]) if rv[0] == "use" else (rv[2] if rv[0] == "ref" else (op_place(rv[2]) if rv[0] == "cast" else None))
+                if pl is None:
+                    l = None
+                    break
+                for e in pl[1:]:
+                    if isinstance(e, list) and e[0] == "." and comp is None:
+                        comp = e[1]
+                l = pl[0]
+            if l == 2:
+                k = ("position" if comp == 0 else "element") if enum else "element"
+                reads.append((k, gc.get("args", ["?"])[0], gt))
     ctx.count(rid + ".reads", len(reads))
     if len(reads) < 2:
         ctx.anchor_missing(rid, "two element reads indexed through the permutation in Toc::parse")
